@@ -249,3 +249,65 @@ Example search_accepts_merit_increase :
   | None => false
   end = true.
 Proof. vm_compute. reflexivity. Qed.
+
+(* ---- C14 for the Globalized variant: it hands the step solver the system of the Full variant, and when the full
+   step passes the test at once the point it hands on is the Full variant's point ---- *)
+Lemma xn1_idem x d l u : bnd_le l u = true ->
+  let '(xn, d') := xn1 x d l u in
+  fst (xn1 x (1 * d') l u) == xn.
+Proof.
+  intros H. pose proof (xn1_in_box x d l u H) as X. destruct (xn1 x d l u) as [xn d']. destruct X as (X1 & X2 & X3).
+  assert (E : x - 1 * d' == xn) by (rewrite X3; ring).
+  rewrite xn1_inside.
+  - cbn [fst]. exact E.
+  - destruct l as [a|]; cbn in *; auto. qcases. apply qle_iff. rewrite E. exact X1.
+  - destruct u as [b|]; cbn in *; auto. qcases. apply qle_iff. rewrite E. exact X2.
+Qed.
+
+Lemma step_result_idem (P : problem) x y dx dy :
+  Forall2 (fun l u => bnd_le l u = true) (var_lb P) (var_ub P) ->
+  let '(dx0, dy0, xn0, yn0) := step_result P x y dx dy in
+  let '(_, _, xn1_, yn1_) := step_result P x y (vscale 1 dx0) (vscale 1 dy0) in
+  veq xn1_ xn0 /\ veq yn1_ yn0.
+Proof.
+  intros HF. unfold step_result. split.
+  - revert x dx. induction HF as [|l u lbs ubs Hlu Hrest IH]; intros [|x0 x] [|d0 dx]; cbn; try constructor.
+    + pose proof (xn1_idem x0 d0 l u Hlu) as X. destruct (xn1 x0 d0 l u) as [xn d']. cbn [snd fst]. exact X.
+    + apply IH.
+  - clear HF. revert dy. induction y as [|y0 y IH]; intros [|e0 dy]; cbn; try constructor.
+    + ring.
+    + apply IH.
+Qed.
+
+Theorem globalized_system_is_full (P : problem) xh yh dt rho kind tau tol x y sol :
+  let '(M, r, _) := globalized_step P xh yh dt rho kind tau tol x y sol in
+  let '(M', r', _) := newton_step P xh yh dt rho kind Full tau x y sol in
+  M = M' /\ r = r'.
+Proof.
+  unfold globalized_step.
+  destruct (newton_step P xh yh dt rho kind Full tau x y sol) as [[M0 r0] [[[dx0 dy0] xn0] yn0]].
+  destruct (qle _ tol); [split; reflexivity|].
+  destruct (search _ _ _ _ _ _ _ _ _ _ _ _ _ _ _); split; reflexivity.
+Qed.
+
+Theorem globalized_full_step_when_accepted (P : problem) xh yh dt rho kind tau tol x y sol :
+  Forall2 (fun l u => bnd_le l u = true) (var_lb P) (var_ub P) ->
+  let '(_, _, (dx0, dy0, xn0, yn0)) := newton_step P xh yh dt rho kind Full tau x y sol in
+  qle (merit P xh yh dt rho kind x y) tol = true
+  \/ accepts P xh yh dt rho kind tol (merit P xh yh dt rho kind x y) (search_ip P xh yh dt rho kind x y dx0 dy0)
+             x y dx0 dy0 1 = true ->
+  match snd (globalized_step P xh yh dt rho kind tau tol x y sol) with
+  | Some (_, _, xn, yn) => veq xn xn0 /\ veq yn yn0
+  | None => False
+  end.
+Proof.
+  intros HF. unfold globalized_step, newton_step, solve_step.
+  destruct (post _ _ _ _ _ _ _ _ _ _) as [dxs dys].
+  pose proof (step_result_idem P x y dxs dys HF) as I.
+  destruct (step_result P x y dxs dys) as [[[dx0 dy0] xn0] yn0].
+  intros [Hr|Ha].
+  - rewrite Hr. cbn [snd]. split; apply veq_refl.
+  - destruct (qle _ tol); [cbn [snd]; split; apply veq_refl|].
+    unfold max_trials. cbn [search]. rewrite Ha. cbn [snd].
+    destruct (step_result P x y (vscale 1 dx0) (vscale 1 dy0)) as [[[dxb dyb] xnb] ynb]. exact I.
+Qed.
